@@ -1,6 +1,8 @@
 package main
 
 import (
+	"go/token"
+	"go/types"
 	"golang.org/x/tools/go/ssa"
 	"strings"
 )
@@ -225,7 +227,7 @@ func (e *Eng) WritesThroughParam(fn *ssa.Function, idx int, depth int) []ParamWr
 	}
 	root := fn.Params[idx]
 	derives := func(v ssa.Value) bool {
-		return e.DerivesFrom(v, false, func(x ssa.Value) bool { return x == ssa.Value(root) })
+		return addrFrom(v, root, map[ssa.Value]bool{}, 0)
 	}
 	mutators := map[string]int{"sort.Slice": 0, "sort.SliceStable": 0, "sort.Sort": 0, "sort.Stable": 0, "sort.Strings": 0, "sort.Ints": 0,
 		"slices.Sort": 0, "slices.SortFunc": 0, "slices.SortStableFunc": 0, "slices.Reverse": 0}
@@ -268,4 +270,73 @@ func (e *Eng) WritesThroughParam(fn *ssa.Function, idx int, depth int) []ParamWr
 		}
 	}
 	return out
+}
+
+// addrFrom reports whether the memory v designates (v an address, slice, map or pointer) is memory reachable from
+// root: through field and element addresses, slicing, loads of references stored there, phis and conversions.  A
+// value copied out of that memory into a local (v := *p) is a different object: writes to the local's fields do not
+// reach root.
+func addrFrom(v, root ssa.Value, seen map[ssa.Value]bool, depth int) bool {
+	if v == root {
+		return true
+	}
+	if seen[v] || depth > 12 {
+		return false
+	}
+	seen[v] = true
+	isRef := func(t types.Type) bool {
+		switch t.Underlying().(type) {
+		case *types.Pointer, *types.Slice, *types.Map, *types.Chan, *types.Interface:
+			return true
+		}
+		return false
+	}
+	switch x := v.(type) {
+	case *ssa.FieldAddr:
+		return addrFrom(x.X, root, seen, depth+1)
+	case *ssa.IndexAddr:
+		return addrFrom(x.X, root, seen, depth+1)
+	case *ssa.Slice:
+		return addrFrom(x.X, root, seen, depth+1)
+	case *ssa.ChangeType:
+		return addrFrom(x.X, root, seen, depth+1)
+	case *ssa.Convert:
+		return isRef(x.Type()) && addrFrom(x.X, root, seen, depth+1)
+	case *ssa.MakeInterface:
+		return isRef(x.X.Type()) && addrFrom(x.X, root, seen, depth+1)
+	case *ssa.Phi:
+		for _, ed := range x.Edges {
+			if addrFrom(ed, root, seen, depth+1) {
+				return true
+			}
+		}
+	case *ssa.UnOp:
+		if x.Op != token.MUL {
+			return false
+		}
+		// a reference loaded from memory reachable from root, or from a local that holds such a reference
+		if !isRef(x.Type()) {
+			return false
+		}
+		if a, ok := x.X.(*ssa.Alloc); ok {
+			for _, r := range *a.Referrers() {
+				if st, ok := r.(*ssa.Store); ok && st.Addr == ssa.Value(a) && addrFrom(st.Val, root, seen, depth+1) {
+					return true
+				}
+			}
+			return false
+		}
+		return addrFrom(x.X, root, seen, depth+1)
+	case *ssa.Field:
+		return isRef(x.Type()) && addrFrom(x.X, root, seen, depth+1)
+	case *ssa.Lookup:
+		return isRef(x.Type()) && addrFrom(x.X, root, seen, depth+1)
+	case *ssa.Extract:
+		if nx, ok := x.Tuple.(*ssa.Next); ok {
+			if rg, ok := nx.Iter.(*ssa.Range); ok {
+				return isRef(x.Type()) && addrFrom(rg.X, root, seen, depth+1)
+			}
+		}
+	}
+	return false
 }
